@@ -258,8 +258,8 @@ class Repo:
             e.update(extra)
         return e
 
-    def popen(self, args, extra_env=None, stdin=None):
-        return subprocess.Popen([MONORAIL, "-f", self.cfg_path] + list(args), cwd=self.dir, env=self.env(extra_env),
+    def popen(self, args, extra_env=None, stdin=None, wrap=None):
+        return subprocess.Popen(list(wrap or []) + [MONORAIL, "-f", self.cfg_path] + list(args), cwd=self.dir, env=self.env(extra_env),
                                 stdin=stdin if stdin is not None else subprocess.DEVNULL,
                                 stdout=subprocess.PIPE, stderr=subprocess.PIPE)
 
@@ -350,9 +350,11 @@ def reap_helpers(repo):
             exe = os.readlink("/proc/%s/exe" % pid)
         except OSError:
             continue
-        if cwd.startswith(repo.dir) and "mrhelper" not in exe and "monorail" not in exe:
+        # exactly this repository: "r1" must not match the processes of "r10"
+        inside = cwd == repo.dir or cwd.startswith(repo.dir + "/")
+        if inside and "mrhelper" not in exe and "monorail" not in exe:
             continue
-        if cwd.startswith(repo.dir):
+        if inside:
             try:
                 os.kill(int(pid), signal.SIGKILL)
             except OSError:
